@@ -1,6 +1,227 @@
-(* placeholder; replaced once the proofs are in *)
-From Tetl Require Import Lib.Base C12.Model C12.Spec.
+(* C12 — Duration arithmetic and rounding casts are exact rational arithmetic.
+   Property theorems only: each is closed by [exact] of a lemma proved in Proofs*.v, followed by
+   Print Assumptions.
+
+   Reading guide.  [Dur w n d] is the model of the type duration<Rep, ratio<n, d>> with Rep a
+   signed integer of w bits (rep_ok: w = 32 or 64) and n/d in lowest terms, positive,
+   representable (period_ok) — which is what ratio<N, D>::num/den always are (C12_ratio_normalises).
+   The [*_m] functions are the executable mirror of the C++ (Model.v), the [*_spec] functions the
+   rational arithmetic of [time.duration] (Spec.v).  The [*_ok] hypotheses are the documented
+   domain: the exact result and the intermediate values the C++ computes in intmax_t / the
+   common representation are representable (otherwise the C++ has signed overflow = UB).
+   All statements hold for ALL periods and ALL counts in that domain. *)
+From Tetl Require Import Lib.Base C12.Model C12.Spec C12.ProofsArith C12.ProofsCast C12.ProofsCommon
+  C12.ProofsRound C12.ProofsSpec.
 Local Open Scope Z_scope.
-Theorem C12_placeholder : duration_cast_m {| rw := 64; pn := 1; pd := 1000 |} {| rw := 64; pn := 1; pd := 1 |} (-1500) = Val (-1).
-Proof. vm_compute. reflexivity. Qed.
-Print Assumptions C12_placeholder.
+
+(** * ratio, gcd, lcm *)
+Theorem C12_gcd : forall m n, 0 < m <= max64 -> 0 <= n <= max64 -> gcd_m m n = Val (Z.gcd m n).
+Proof. exact gcd_m_spec. Qed.
+Print Assumptions C12_gcd.
+
+Theorem C12_lcm : forall m n, 0 < m <= max64 -> 0 < n <= max64 -> Z.lcm m n <= max64 ->
+  lcm_m m n = Val (Z.lcm m n).
+Proof. exact lcm_m_spec. Qed.
+Print Assumptions C12_lcm.
+
+(* ratio<N, D>::num / ::den are N, D divided by their gcd, and form a period in the above sense *)
+Theorem C12_ratio_normalises : forall w N D, 0 < N <= max64 -> 0 < D <= max64 ->
+  mk_dty w N D = Val (Dur w (N / Z.gcd N D) (D / Z.gcd N D))
+  /\ period_ok (N / Z.gcd N D) (D / Z.gcd N D) = true.
+Proof. intros w N D HN HD. split; [apply mk_dty_spec|apply reduced_period_ok]; assumption. Qed.
+Print Assumptions C12_ratio_normalises.
+
+(** * duration_cast, floor, ceil, round, abs *)
+Theorem C12_duration_cast_trunc : forall w1 n1 d1 w2 n2 d2 c,
+  rep_ok w1 = true -> rep_ok w2 = true -> period_ok n1 d1 = true -> period_ok n2 d2 = true ->
+  cast_ok w1 n1 d1 w2 n2 d2 c = true ->
+  duration_cast_m (Dur w1 n1 d1) (Dur w2 n2 d2) c = Val (cast_spec n1 d1 n2 d2 c).
+Proof. exact duration_cast_spec. Qed.
+Print Assumptions C12_duration_cast_trunc.
+
+Theorem C12_floor : forall w1 n1 d1 w2 n2 d2,
+  rep_ok w1 = true -> rep_ok w2 = true -> period_ok n1 d1 = true -> period_ok n2 d2 = true ->
+  forall c, floor_ok w1 n1 d1 w2 n2 d2 c = true ->
+  floor_m (Dur w1 n1 d1) (Dur w2 n2 d2) c = Val (floor_spec n1 d1 n2 d2 c).
+Proof. exact floor_m_spec. Qed.
+Print Assumptions C12_floor.
+
+Theorem C12_ceil : forall w1 n1 d1 w2 n2 d2,
+  rep_ok w1 = true -> rep_ok w2 = true -> period_ok n1 d1 = true -> period_ok n2 d2 = true ->
+  forall c, ceil_ok w1 n1 d1 w2 n2 d2 c = true ->
+  ceil_m (Dur w1 n1 d1) (Dur w2 n2 d2) c = Val (ceil_spec n1 d1 n2 d2 c).
+Proof. exact ceil_m_spec. Qed.
+Print Assumptions C12_ceil.
+
+Theorem C12_round_half_even : forall w1 n1 d1 w2 n2 d2,
+  rep_ok w1 = true -> rep_ok w2 = true -> period_ok n1 d1 = true -> period_ok n2 d2 = true ->
+  forall c, round_ok w1 n1 d1 w2 n2 d2 c = true ->
+  round_m (Dur w1 n1 d1) (Dur w2 n2 d2) c = Val (round_spec n1 d1 n2 d2 c).
+Proof. exact round_m_spec. Qed.
+Print Assumptions C12_round_half_even.
+
+Theorem C12_abs : forall w n d c, period_ok n d = true -> abs_ok w c = true ->
+  abs_m (Dur w n d) c = Val (abs_spec c).
+Proof. exact abs_m_spec. Qed.
+Print Assumptions C12_abs.
+
+(** * the common type and conversion to it *)
+Theorem C12_common_type : forall w1 n1 d1 w2 n2 d2,
+  period_ok n1 d1 = true -> period_ok n2 d2 = true -> cden d1 d2 <= max64 ->
+  common_m (Dur w1 n1 d1) (Dur w2 n2 d2) = Val (Dur (Z.max w1 w2) (cnum n1 n2) (cden d1 d2)).
+Proof. exact common_m_spec. Qed.
+Print Assumptions C12_common_type.
+
+(* conversion to the common type never rounds: CD(lhs).count() = c1 * (n1/d1)/(g/l), an integer
+   multiple, and likewise for rhs *)
+Theorem C12_common_type_exact : forall w1 n1 d1 w2 n2 d2 c1 c2,
+  rep_ok w1 = true -> rep_ok w2 = true -> period_ok n1 d1 = true -> period_ok n2 d2 = true ->
+  both_ok w1 n1 d1 w2 n2 d2 c1 c2 = true ->
+  to_common_m (Dur w1 n1 d1) (Dur w2 n2 d2) c1 c2
+  = Val (Dur (Z.max w1 w2) (cnum n1 n2) (cden d1 d2), in_common n1 d1 n2 d2 c1, in_common n2 d2 n1 d1 c2)
+  /\ in_common n1 d1 n2 d2 c1 * cnum n1 n2 * d1 = c1 * n1 * cden d1 d2.
+Proof.
+  intros w1 n1 d1 w2 n2 d2 c1 c2 Hw1 Hw2 Hp1 Hp2 Hb. split.
+  - rewrite in_common_l, in_common_r. apply to_common_m_spec; assumption.
+  - apply in_common_exact; assumption.
+Qed.
+Print Assumptions C12_common_type_exact.
+
+(* the converting constructor participates exactly when the source period is an integer multiple
+   of the target period, and then converts exactly *)
+Theorem C12_converting_constructor : forall w1 n1 d1 w2 n2 d2,
+  rep_ok w1 = true -> rep_ok w2 = true -> period_ok n1 d1 = true -> period_ok n2 d2 = true ->
+  n1 * d2 <= max64 -> d1 * n2 <= max64 ->
+  convertible_m (Dur w1 n1 d1) (Dur w2 n2 d2) = Val ((n1 * d2) mod (d1 * n2) =? 0)
+  /\ forall c, (n1 * d2) mod (d1 * n2) = 0 -> cast_ok w1 n1 d1 w2 n2 d2 c = true ->
+       conv_m (Dur w1 n1 d1) (Dur w2 n2 d2) c = Val (cast_spec n1 d1 n2 d2 c)
+       /\ cast_spec n1 d1 n2 d2 c * (d1 * n2) = c * n1 * d2.
+Proof.
+  intros w1 n1 d1 w2 n2 d2 Hw1 Hw2 Hp1 Hp2 Ha Hb. split.
+  - apply convertible_m_spec; assumption.
+  - intros c He Hc. apply conv_m_spec; assumption.
+Qed.
+Print Assumptions C12_converting_constructor.
+
+(** * + - / % == != < <= > >= on two durations *)
+Theorem C12_plus : forall w1 n1 d1 w2 n2 d2,
+  rep_ok w1 = true -> rep_ok w2 = true -> period_ok n1 d1 = true -> period_ok n2 d2 = true ->
+  forall c1 c2, plus_ok w1 n1 d1 w2 n2 d2 c1 c2 = true ->
+  plus_m (Dur w1 n1 d1) (Dur w2 n2 d2) c1 c2 = Val (plus_spec n1 d1 n2 d2 c1 c2).
+Proof. exact plus_m_spec. Qed.
+Print Assumptions C12_plus.
+
+Theorem C12_minus : forall w1 n1 d1 w2 n2 d2,
+  rep_ok w1 = true -> rep_ok w2 = true -> period_ok n1 d1 = true -> period_ok n2 d2 = true ->
+  forall c1 c2, minus_ok w1 n1 d1 w2 n2 d2 c1 c2 = true ->
+  minus_m (Dur w1 n1 d1) (Dur w2 n2 d2) c1 c2 = Val (minus_spec n1 d1 n2 d2 c1 c2).
+Proof. exact minus_m_spec. Qed.
+Print Assumptions C12_minus.
+
+Theorem C12_div : forall w1 n1 d1 w2 n2 d2,
+  rep_ok w1 = true -> rep_ok w2 = true -> period_ok n1 d1 = true -> period_ok n2 d2 = true ->
+  forall c1 c2, div_ok w1 n1 d1 w2 n2 d2 c1 c2 = true ->
+  div_m (Dur w1 n1 d1) (Dur w2 n2 d2) c1 c2 = Val (div_spec n1 d1 n2 d2 c1 c2).
+Proof. exact div_m_spec. Qed.
+Print Assumptions C12_div.
+
+Theorem C12_mod : forall w1 n1 d1 w2 n2 d2,
+  rep_ok w1 = true -> rep_ok w2 = true -> period_ok n1 d1 = true -> period_ok n2 d2 = true ->
+  forall c1 c2, div_ok w1 n1 d1 w2 n2 d2 c1 c2 = true ->
+  mod_m (Dur w1 n1 d1) (Dur w2 n2 d2) c1 c2 = Val (mod_spec n1 d1 n2 d2 c1 c2).
+Proof. exact mod_m_spec. Qed.
+Print Assumptions C12_mod.
+
+Theorem C12_compare : forall w1 n1 d1 w2 n2 d2,
+  rep_ok w1 = true -> rep_ok w2 = true -> period_ok n1 d1 = true -> period_ok n2 d2 = true ->
+  forall c1 c2, both_ok w1 n1 d1 w2 n2 d2 c1 c2 = true ->
+  let a := Dur w1 n1 d1 in let b := Dur w2 n2 d2 in
+  eq_m a b c1 c2 = Val (eq_spec n1 d1 n2 d2 c1 c2)
+  /\ ne_m a b c1 c2 = Val (negb (eq_spec n1 d1 n2 d2 c1 c2))
+  /\ lt_m a b c1 c2 = Val (lt_spec n1 d1 n2 d2 c1 c2)
+  /\ le_m a b c1 c2 = Val (negb (lt_spec n2 d2 n1 d1 c2 c1))
+  /\ gt_m a b c1 c2 = Val (lt_spec n2 d2 n1 d1 c2 c1)
+  /\ ge_m a b c1 c2 = Val (negb (lt_spec n1 d1 n2 d2 c1 c2)).
+Proof.
+  intros w1 n1 d1 w2 n2 d2 Hw1 Hw2 Hp1 Hp2 c1 c2 Hb. cbv zeta.
+  repeat split.
+  - apply eq_m_spec; assumption.
+  - apply ne_m_spec; assumption.
+  - apply lt_m_spec; assumption.
+  - apply le_m_spec; assumption.
+  - apply gt_m_spec; assumption.
+  - apply ge_m_spec; assumption.
+Qed.
+Print Assumptions C12_compare.
+
+(** * the specification functions are the operations the standard words relationally
+      (t ticks of n2/d2 versus c ticks of n1/d1  <=>  t * (d1*n2) versus c*n1*d2) *)
+Theorem C12_spec_cast_is_truncation : forall n1 d1 n2 d2 c, 0 < d1 -> 0 < n2 ->
+  let t := cast_spec n1 d1 n2 d2 c in
+  Z.abs (t * (d1 * n2)) <= Z.abs (c * n1 * d2) /\ Z.abs (c * n1 * d2 - t * (d1 * n2)) < d1 * n2
+  /\ (0 <= c * n1 * d2 -> 0 <= t) /\ (c * n1 * d2 <= 0 -> t <= 0).
+Proof. exact cast_spec_char. Qed.
+Print Assumptions C12_spec_cast_is_truncation.
+
+Theorem C12_spec_floor_is_greatest_below : forall n1 d1 n2 d2 c, 0 < d1 -> 0 < n2 ->
+  let t := floor_spec n1 d1 n2 d2 c in
+  t * (d1 * n2) <= c * n1 * d2 < (t + 1) * (d1 * n2)
+  /\ (forall t', t' * (d1 * n2) <= c * n1 * d2 -> t' <= t).
+Proof. exact floor_spec_char. Qed.
+Print Assumptions C12_spec_floor_is_greatest_below.
+
+Theorem C12_spec_ceil_is_least_above : forall n1 d1 n2 d2 c, 0 < d1 -> 0 < n2 ->
+  let t := ceil_spec n1 d1 n2 d2 c in
+  (t - 1) * (d1 * n2) < c * n1 * d2 <= t * (d1 * n2)
+  /\ (forall t', c * n1 * d2 <= t' * (d1 * n2) -> t <= t').
+Proof. exact ceil_spec_char. Qed.
+Print Assumptions C12_spec_ceil_is_least_above.
+
+Theorem C12_spec_round_is_nearest_even : forall n1 d1 n2 d2 c, 0 < d1 -> 0 < n2 ->
+  let t := round_spec n1 d1 n2 d2 c in
+  forall t', Z.abs (c * n1 * d2 - t * (d1 * n2)) <= Z.abs (c * n1 * d2 - t' * (d1 * n2))
+             /\ (t' <> t -> Z.abs (c * n1 * d2 - t * (d1 * n2)) = Z.abs (c * n1 * d2 - t' * (d1 * n2)) ->
+                 Z.even t = true).
+Proof. exact round_spec_char. Qed.
+Print Assumptions C12_spec_round_is_nearest_even.
+
+Theorem C12_spec_plus_minus_exact : forall n1 d1 n2 d2, period_ok n1 d1 = true -> period_ok n2 d2 = true ->
+  forall c1 c2,
+  plus_spec n1 d1 n2 d2 c1 c2 * cnum n1 n2 * (d1 * d2) = cden d1 d2 * (c1 * n1 * d2 + c2 * n2 * d1)
+  /\ minus_spec n1 d1 n2 d2 c1 c2 * cnum n1 n2 * (d1 * d2) = cden d1 d2 * (c1 * n1 * d2 - c2 * n2 * d1).
+Proof. intros n1 d1 n2 d2 H1 H2 c1 c2. split; [apply plus_spec_char|apply minus_spec_char]; assumption. Qed.
+Print Assumptions C12_spec_plus_minus_exact.
+
+Theorem C12_spec_div_mod : forall n1 d1 n2 d2, period_ok n1 d1 = true -> period_ok n2 d2 = true ->
+  forall c1 c2, c2 <> 0 ->
+  in_common n1 d1 n2 d2 c1
+  = in_common n2 d2 n1 d1 c2 * div_spec n1 d1 n2 d2 c1 c2 + mod_spec n1 d1 n2 d2 c1 c2
+  /\ Z.abs (mod_spec n1 d1 n2 d2 c1 c2) < Z.abs (in_common n2 d2 n1 d1 c2).
+Proof. exact div_mod_spec_char. Qed.
+Print Assumptions C12_spec_div_mod.
+
+(** * the named duration types *)
+Theorem C12_typedefs :
+  forallb (fun p => let '((w, n, d), (bits, sn, sd)) := p in (n =? sn) && (d =? sd) && (bits <=? w))
+          (combine typedefs_m typedefs_spec) = true
+  /\ length typedefs_m = length typedefs_spec.
+Proof. exact typedefs_ok. Qed.
+Print Assumptions C12_typedefs.
+
+(** * non-vacuity: the hypotheses are met by milliseconds -> seconds and by
+      ratio<1001,30000> -> ratio<1,3> at +-2^31, with int64 and with int32 source counts *)
+Example C12_nonvacuous :
+  period_ok 1 1000 = true /\ period_ok 1 1 = true /\ period_ok 1001 30000 = true /\ period_ok 1 3 = true
+  /\ round_ok 64 1 1000 64 1 1 2147483648 = true /\ round_ok 64 1 1000 64 1 1 (-2147483648) = true
+  /\ ceil_ok 64 1 1000 64 1 1 (-2147483648) = true
+  /\ round_ok 64 1001 30000 64 1 3 2147483648 = true /\ round_ok 64 1001 30000 64 1 3 (-2147483648) = true
+  /\ ceil_ok 64 1001 30000 64 1 3 2147483648 = true
+  /\ round_ok 32 1001 30000 64 1 3 (-2147483648) = true
+  /\ plus_ok 64 1001 30000 64 1 3 2147483648 (-2147483648) = true
+  /\ div_ok 64 1 1000 32 1 1 (-2147483648) 2147483647 = true
+  /\ abs_ok 64 (-2147483648) = true
+  /\ round_m (Dur 64 1 1000) (Dur 64 1 1) (-2500) = Val (-2)
+  /\ round_m (Dur 64 1 1000) (Dur 64 1 1) (-3500) = Val (-4)
+  /\ floor_m (Dur 64 1001 30000) (Dur 64 1 3) (-2147483648) = Val (-214963114)
+  /\ round_m (Dur 64 1001 30000) (Dur 64 1 3) 2147483648 = Val 214963113.
+Proof. vm_compute. repeat split; reflexivity. Qed.
